@@ -95,7 +95,7 @@ func cmdCheck(args []string) int {
 	noEvidence := fs.Bool("no-evidence", false, "do not write evidence")
 	smtlog := fs.Bool("smtlog", false, "keep SMT-LIB logs")
 	budget := fs.Duration("budget", 0, "wall-clock budget per harness")
-	solver := fs.String("solver", "z3", "solver binary")
+	solver := fs.String("solver", defaultSolver(), "solver binary")
 	fs.Parse(args)
 	if *prop == "" {
 		fatalf("--prop required")
@@ -481,29 +481,29 @@ func writeEvidence(root, prop, tier string, seed int, results []*HarnessResult, 
 		"violations":  viol,
 		"assumptions": assumptions,
 		"coverage": map[string]interface{}{
-			"evaluations":         evals,
-			"distinct_nontrivial": distinct,
-			"rule":                "one evaluation = one complete symbolic path of a harness through the real SSA (each path stands for all values of the symbolic variables satisfying its path condition); non-trivial = the path contains at least one branch or case split decided by the SMT solver; distinct = by decision sequence",
-			"samples":             samples,
-			"explanation":         "bounded symbolic execution of the repository's Go code (go/ssa) with z3 deciding every symbolic branch and every property assertion; path set closed under the solver's feasibility answers",
-			"exhaustive":          len(incon) == 0,
-			"obligations":         oblig,
-			"discharged":          disch,
-			"queries":             solver.Queries,
-			"queries_sat":         solver.Sat,
-			"queries_unsat":       solver.Unsat,
-			"queries_unknown":     solver.Unknown,
-			"decided_by_cached_model": solver.ModelHit,
-			"solver_seconds":      solver.Seconds,
-			"solver":              cfg.SolverBin,
-			"load_seconds":        w.loadSecs,
-			"bounds":              bounds,
-			"engine_caps":         map[string]interface{}{"max_decisions_per_path": cfg.MaxDecisions, "max_instructions_per_path": cfg.MaxInstrs, "max_concretise_fanout": cfg.MaxConcretize, "solver_timeout_ms": cfg.TimeoutMs, "max_alloc_elems": cfg.MaxAlloc},
-			"functions_encoded":   kraken,
+			"evaluations":                   evals,
+			"distinct_nontrivial":           distinct,
+			"rule":                          "one evaluation = one complete symbolic path of a harness through the real SSA (each path stands for all values of the symbolic variables satisfying its path condition); non-trivial = the path contains at least one branch or case split decided by the SMT solver; distinct = by decision sequence",
+			"samples":                       samples,
+			"explanation":                   "bounded symbolic execution of the repository's Go code (go/ssa) with z3 deciding every symbolic branch and every property assertion; path set closed under the solver's feasibility answers",
+			"exhaustive":                    len(incon) == 0,
+			"obligations":                   oblig,
+			"discharged":                    disch,
+			"queries":                       solver.Queries,
+			"queries_sat":                   solver.Sat,
+			"queries_unsat":                 solver.Unsat,
+			"queries_unknown":               solver.Unknown,
+			"decided_by_cached_model":       solver.ModelHit,
+			"solver_seconds":                solver.Seconds,
+			"solver":                        cfg.SolverBin,
+			"load_seconds":                  w.loadSecs,
+			"bounds":                        bounds,
+			"engine_caps":                   map[string]interface{}{"max_decisions_per_path": cfg.MaxDecisions, "max_instructions_per_path": cfg.MaxInstrs, "max_concretise_fanout": cfg.MaxConcretize, "solver_timeout_ms": cfg.TimeoutMs, "max_alloc_elems": cfg.MaxAlloc},
+			"functions_encoded":             kraken,
 			"library_functions_interpreted": len(lib),
-			"models_hit":          stubL,
-			"harnesses":           results,
-			"inconclusive":        incon,
+			"models_hit":                    stubL,
+			"harnesses":                     results,
+			"inconclusive":                  incon,
 		},
 	}
 	os.MkdirAll(filepath.Join(root, "evidence"), 0o755)
